@@ -1,5 +1,6 @@
 import Driver.Util
 import NutsModel.C18.Policy
+import NutsModel.C18.Cache
 open Lean Nuts.Drv Nuts.C18 Nuts
 
 namespace Nuts.Drv.C18
@@ -27,15 +28,20 @@ def showURL (u : URL) : String :=
 
 def showReq (r : Req) : String := s!"{ascii r.scheme}|{hx r.host}|{hx r.path}|{r.user}|{hx r.query}"
 
-def parseBody (s : String) : Body :=
+def parseBodyJ (j : Json) (s : String) : Body :=
+  if s.startsWith "raw:" then .raw (if jHas j "pid" then some (unhx (jStr j "pid")) else none) else
   if s.startsWith "doc:" then .doc (unhx (s.drop 4).toString) else
   if s == "badjson" then .badjson else if s == "big" then .big else .empty
+
+def parseCUrl (j : Json) : CUrl :=
+  { scheme := bytesOf (jStr j "scheme"), user := bytesOf (jStr j "user"), host := bytesOf (jStr j "host"),
+    path := bytesOf (jStr j "path"), query := bytesOf (jStr j "query"), frag := bytesOf (jStr j "frag") }
 
 def parseResp (j : Json) : Option Resp :=
   let st := jNat j "st"
   if st = 0 then none else
   some { status := st, mediaType := if jHas j "mt" then some (unhx (jStr j "mt")) else none,
-         loc := unhx (jStr j "loc"), body := parseBody (jStr j "body") }
+         loc := unhx (jStr j "loc"), body := parseBodyJ j (jStr j "body") }
 
 structure St where
   methods : List Bytes := []
@@ -73,6 +79,18 @@ def step (st : St) (j : Json) : St × List String :=
     | "dec" => "dec " ++ hx (percentDecode dec s)
     | "ip" => s!"ip {isIP s}"
     | "wf" => s!"wf {wfDID enc d}"
+    | "cache" =>
+      let strict := jBool j "strict"
+      let cacheable := jBool j "cacheable"
+      let (cache0, inner0) := thirdPartyFetches strict cacheable [] ((jArr j "pre").map parseCUrl)
+      match didWebURL dec d with
+      | .ok u =>
+        -- two resolutions; the servers answer with a document that claims the DID
+        let r1 := cacheGet cacheable cache0 u
+        let r2 := cacheGet cacheable r1.1 u
+        let inner := inner0 ++ (match r1.2 with | some q => [q] | none => []) ++ (match r2.2 with | some q => [q] | none => [])
+        s!"cache inner=[{String.intercalate "," (inner.map hx)}] out=ok:{hx d.str};ok:{hx d.str};"
+      | r => s!"cache inner=[{String.intercalate "," (inner0.map hx)}] out=err:d2u:{(r.cls.drop 4).toString};err:d2u:{(r.cls.drop 4).toString};"
     | "res" =>
       let resps := ((jArr j "resps").map parseResp).toArray
       let srv : Nat → Req → Option Resp := fun hop _ => (resps[hop]?).join
